@@ -12,8 +12,8 @@ namespace Walleye
     squares before it empty -/
 theorem walk_firstHit (b : Board) (dr dc : Int) :
     ∀ (fuel : Nat) (r c : Int) (acc : List Point),
-      (∃ n, n < fuel ∧ (b.getI (r + n * dr) (c + n * dc)).isEmpty = false) →
-      ∃ n, (walk b dr dc fuel r c acc).2.1 = ptI (r + n * dr) (c + n * dc) ∧
+      (∃ n : Nat, n < fuel ∧ (b.getI (r + n * dr) (c + n * dc)).isEmpty = false) →
+      ∃ n : Nat, (walk b dr dc fuel r c acc).2.1 = ptI (r + n * dr) (c + n * dc) ∧
         (walk b dr dc fuel r c acc).2.2 = b.getI (r + n * dr) (c + n * dc) ∧
         (b.getI (r + n * dr) (c + n * dc)).isEmpty = false ∧
         ∀ i : Nat, i < n → (b.getI (r + i * dr) (c + i * dc)).isEmpty = true := by
@@ -52,5 +52,121 @@ theorem walk_firstHit (b : Board) (dr dc : Int) :
     · have he' : (b.getI r c).isEmpty = false := by simpa using he
       simp only [he', Bool.false_eq_true, if_false]
       exact ⟨0, by simp, by simp, by simpa using he', fun i hi => by omega⟩
+
+/-! ### the declarative attack relation on the mailbox -/
+
+/-- the (n+1)-th square from `t` in direction `d` -/
+def rayAt (b : Board) (t : Point) (d : Int × Int) (n : Nat) : Square :=
+  b.getI ((t.row : Int) + d.1 + (n : Int) * d.1) ((t.col : Int) + d.2 + (n : Int) * d.2)
+
+/-- a piece of kind `k` or a queen of colour `ac` stands on a line through `t` in one of the
+    directions `dirs`, with only empty squares in between -/
+def LineAttack (b : Board) (ac : Color) (dirs : List (Int × Int)) (k : Kind) (t : Point) : Prop :=
+  ∃ d ∈ dirs, ∃ n : Nat, (∀ i : Nat, i < n → (rayAt b t d i).isEmpty = true) ∧
+    (rayAt b t d n = .full ⟨ac, k⟩ ∨ rayAt b t d n = .full ⟨ac, .queen⟩)
+
+def UnitDir (d : Int × Int) : Prop :=
+  (d.1 = 1 ∨ d.1 = -1 ∨ d.1 = 0) ∧ (d.2 = 1 ∨ d.2 = -1 ∨ d.2 = 0) ∧ ¬ (d.1 = 0 ∧ d.2 = 0)
+
+instance (d : Int × Int) : Decidable (UnitDir d) := by unfold UnitDir; infer_instance
+
+theorem offboard_boundary (b : Board) (hr : RingOK b) (r c : Int)
+    (h : ¬ (2 ≤ r ∧ r ≤ 9 ∧ 2 ≤ c ∧ c ≤ 9)) : b.getI r c = .boundary := by
+  by_cases hb : b.getI r c = .boundary
+  · exact hb
+  · obtain ⟨h0, h1, e⟩ := getI_ne_boundary b r c hb
+    have := hr r.toNat c.toNat (by rw [← e]; exact hb)
+    unfold OnBoard at this
+    exfalso; apply h; simp only at this; omega
+
+theorem isPiece_iff (s : Square) (pc : Piece) : s.isPiece pc = true ↔ s = .full pc := by
+  cases s <;> simp [Square.isPiece]
+
+/-- nine steps from an on-board square in a unit direction is off the board -/
+theorem ray_leaves (b : Board) (hr : RingOK b) (t : Point) (ht : OnBoard t) (d : Int × Int) (hd : UnitDir d) :
+    (rayAt b t d 8).isEmpty = false := by
+  unfold rayAt
+  rw [offboard_boundary b hr]
+  · rfl
+  · unfold OnBoard at ht
+    obtain ⟨h1, h2, h3⟩ := hd
+    rcases h1 with e | e | e <;> rcases h2 with e' | e' | e' <;> rw [e, e'] <;>
+      first | (exfalso; exact h3 ⟨e, e'⟩) | omega
+
+/-- a non-boundary ray square at distance n+1 is within 7 steps -/
+theorem ray_short (b : Board) (hr : RingOK b) (t : Point) (ht : OnBoard t) (d : Int × Int) (hd : UnitDir d)
+    (n : Nat) (h : rayAt b t d n ≠ .boundary) : n < 8 := by
+  by_cases hn : n < 8
+  · exact hn
+  · exfalso; apply h
+    unfold rayAt
+    apply offboard_boundary b hr
+    unfold OnBoard at ht
+    obtain ⟨h1, h2, h3⟩ := hd
+    rcases h1 with e | e | e <;> rcases h2 with e' | e' | e' <;> rw [e, e'] <;>
+      first | (exfalso; exact h3 ⟨e, e'⟩) | omega
+
+/-- what the walk of `is_check_cords` sees in one direction is the first non-empty ray square -/
+theorem walk_sees (b : Board) (hr : RingOK b) (t : Point) (ht : OnBoard t) (d : Int × Int) (hd : UnitDir d) :
+    ∃ n : Nat, (walk b d.1 d.2 walkFuel ((t.row : Int) + d.1) ((t.col : Int) + d.2) []).2.2 = rayAt b t d n ∧
+      (rayAt b t d n).isEmpty = false ∧ ∀ i : Nat, i < n → (rayAt b t d i).isEmpty = true := by
+  obtain ⟨n, _, h2, h3, h4⟩ := walk_firstHit b d.1 d.2 walkFuel ((t.row : Int) + d.1) ((t.col : Int) + d.2) []
+    ⟨8, by decide, ray_leaves b hr t ht d hd⟩
+  exact ⟨n, h2, h3, h4⟩
+
+theorem lineHit_iff (b : Board) (hr : RingOK b) (t : Point) (ht : OnBoard t) (ac : Color) (k : Kind)
+    (dirs : List (Int × Int)) (hdirs : ∀ d ∈ dirs, UnitDir d) :
+    (dirs.any fun d =>
+      let (_, _, s) := walk b d.1 d.2 walkFuel ((t.row : Int) + d.1) ((t.col : Int) + d.2) []
+      s.isPiece ⟨ac, k⟩ || s.isPiece ⟨ac, .queen⟩) = true ↔ LineAttack b ac dirs k t := by
+  rw [List.any_eq_true]
+  constructor
+  · rintro ⟨d, hd, h⟩
+    obtain ⟨n, e, _, h4⟩ := walk_sees b hr t ht d (hdirs d hd)
+    refine ⟨d, hd, n, h4, ?_⟩
+    rw [← e]
+    simpa [isPiece_iff] using h
+  · rintro ⟨d, hd, n, hemp, hhit⟩
+    refine ⟨d, hd, ?_⟩
+    obtain ⟨m, e, hne, h4⟩ := walk_sees b hr t ht d (hdirs d hd)
+    have hnn : (rayAt b t d n).isEmpty = false := by rcases hhit with h | h <;> rw [h] <;> rfl
+    have hmn : m = n := by
+      rcases Nat.lt_trichotomy m n with h | h | h
+      · rw [hemp m h] at hne; cases hne
+      · exact h
+      · rw [h4 n h] at hnn; cases hnn
+    subst hmn
+    generalize walk b d.1 d.2 walkFuel ((t.row : Int) + d.1) ((t.col : Int) + d.2) [] = w at e ⊢
+    obtain ⟨a, h', s⟩ := w
+    simp only at e ⊢
+    rw [e]
+    rcases hhit with h | h <;> rw [h] <;> simp [Square.isPiece]
+
+/-- the row a pawn of colour `ac` attacks `row` from (black pawns move towards larger rows) -/
+def attackerPawnRow (ac : Color) (row : Nat) : Nat :=
+  match ac with
+  | .black => row - 1
+  | .white => row + 1
+
+/-- the attack relation `is_check_cords` decides: `ac` attacks `t`; `ak` is `ac`'s king square -/
+def AttackedM (b : Board) (ac : Color) (t : Point) (ak : Point) : Prop :=
+  LineAttack b ac Gen.checkRookDirs .rook t ∨ LineAttack b ac Gen.checkBishopDirs .bishop t ∨
+  (∃ rc ∈ Gen.knightCords, b.getI ((t.row : Int) + rc.1) ((t.col : Int) + rc.2) = .full ⟨ac, .knight⟩) ∨
+  (b.get (attackerPawnRow ac t.row) (t.col - 1) = .full ⟨ac, .pawn⟩ ∨
+   b.get (attackerPawnRow ac t.row) (t.col + 1) = .full ⟨ac, .pawn⟩) ∨
+  (((ak.row : Int) - t.row).natAbs ≤ 1 ∧ ((ak.col : Int) - t.col).natAbs ≤ 1)
+
+theorem checkRookDirs_unit : ∀ d ∈ Gen.checkRookDirs, UnitDir d := by decide
+theorem checkBishopDirs_unit : ∀ d ∈ Gen.checkBishopDirs, UnitDir d := by decide
+
+theorem isCheckCords_iff (p : Pos) (hr : RingOK p.board) (c : Color) (t : Point) (ht : OnBoard t) :
+    isCheckCords p c t = true ↔
+      AttackedM p.board c.opp t (match c with | .white => p.bk | .black => p.wk) := by
+  unfold isCheckCords AttackedM
+  simp only [Bool.or_eq_true, decide_eq_true_eq]
+  rw [lineHit_iff p.board hr t ht c.opp .rook _ checkRookDirs_unit,
+      lineHit_iff p.board hr t ht c.opp .bishop _ checkBishopDirs_unit, List.any_eq_true]
+  simp only [isPiece_iff]
+  cases c <;> simp only [Color.opp, or_assoc, attackerPawnRow]
 
 end Walleye
